@@ -1,7 +1,10 @@
 // Package pan is a checker fixture for the panic-site audit.
 package pan
 
-import "reflect"
+import (
+	"reflect"
+	"sync/atomic"
+)
 
 func BadEq(a, b interface{}) bool { return a == b }
 
@@ -27,3 +30,19 @@ func (b *Box) GoodAssert(x interface{}) string {
 	}
 	return ""
 }
+
+type Swap struct {
+	cur   atomic.Value // only ever holds a string
+	mixed atomic.Value // holds a string or an int
+}
+
+func (s *Swap) Set(v string) { s.cur.Store(v) }
+
+func (s *Swap) SetMixed(v string, n int) {
+	s.mixed.Store(v)
+	s.mixed.Store(n)
+}
+
+func (s *Swap) GoodAtomicLoad() string { return s.cur.Load().(string) }
+
+func (s *Swap) BadAtomicLoadMixed() string { return s.mixed.Load().(string) }
